@@ -460,3 +460,46 @@ func TestVerifRoundTripPointerStruct(t *testing.T) {
 		}()
 	}
 }
+
+// TestVerifBuildFuncSequence: one built function called repeatedly with a
+// callback that succeeds, fails and succeeds again (several patterns): every
+// call reports exactly what its own callback invocation returned — outputs or
+// that error — independent of earlier calls.
+func TestVerifBuildFuncSequence(t *testing.T) {
+	in, err := NewValueSet([]Value{{Name: "n", Type: reflect.TypeOf(0)}})
+	if err != nil {
+		t.Fatal(err)
+	}
+	out, err := NewValueSet([]Value{{Name: "r", Type: reflect.TypeOf(0)}})
+	if err != nil {
+		t.Fatal(err)
+	}
+	for _, pattern := range [][]int{{1, -1, 2}, {-1, 3}, {4, 5, -2, -3, 6}, {-1, -2, 7, 8}} {
+		f, err := BuildFunc(in, out, func(in, out *ValueSet) error {
+			n := in.Named("n").Value.Interface().(int)
+			if n < 0 {
+				return fmt.Errorf("negative input: %d", n)
+			}
+			out.Named("r").Value = reflect.ValueOf(n * 10)
+			return nil
+		})
+		if err != nil {
+			t.Errorf("FAILING-INPUT buildfunc sequence %v: BuildFunc failed: %v", pattern, err)
+			continue
+		}
+		for i, n := range pattern {
+			r := f.Call(Logger(hclog.NewNullLogger()), Named("n", n))
+			switch {
+			case n < 0 && (r.Err() == nil || r.Err().Error() != fmt.Sprintf("negative input: %d", n)):
+				t.Errorf("FAILING-INPUT buildfunc sequence %v: call %d (n=%d) reported %v, want this call's own error", pattern, i, n, r.Err())
+			case n >= 0 && r.Err() != nil:
+				t.Errorf("FAILING-INPUT buildfunc sequence %v: call %d (n=%d) failed with %v although its callback returned nil", pattern, i, n, r.Err())
+			case n >= 0:
+				res := f.Output()
+				if err := res.FromResult(r); err != nil || res.Named("r") == nil || res.Named("r").Value.Interface() != n*10 {
+					t.Errorf("FAILING-INPUT buildfunc sequence %v: call %d (n=%d) did not return %d", pattern, i, n, n*10)
+				}
+			}
+		}
+	}
+}
